@@ -108,6 +108,7 @@ MUTANTS = [
     ('accessLog path in a missing directory', [(['accessLog'], {'path': '/nonexistent/dir/access.log', 'format': 'json'})]),
     ('lb nested ok', [(['connectors'], [{'name': 'direct'}, lb('pool', ['backup']), lb('backup', ['direct'])]), (['rules', 0, 'target'], 'pool')]),
     ('lb hashBy non-string', [(['connectors'], [{'name': 'direct'}, lb('a', ['direct'], algo={'hashBy': 'request.target.port'})]), (['rules', 0, 'target'], 'a')]),
+    ('connector pointing at a listener of the same proxy', [(['connectors'], 'SELF-LOOP'), (['rules', 0, 'target'], 'selfc')]),
     ('lb hashBy runtime error', [(['connectors'], [{'name': 'direct'}, lb('a', ['direct'], algo={'hashBy': 'to_string(1 / (request.target.port - request.target.port))'})]), (['rules', 0, 'target'], 'a')]),
 ]
 # the listener `auth` sub-document: every combination of its three parts (the probe logs in as a listed user and as one
@@ -185,6 +186,12 @@ def probe(px, hp, sp):
         out.append('udp:error')
     return out
 
+def nfds(px):
+    try:
+        return len(os.listdir(f'/proc/{px.proc.pid}/fd'))
+    except OSError:
+        return None
+
 def one(m):
     global evals
     name, edits = m
@@ -196,6 +203,8 @@ def one(m):
             val = cfg['listeners'][:1]
         if isinstance(val, str) and val.startswith('PLUS-TPROXY:'):
             val = cfg['listeners'] + [{'name': 'tp', 'type': 'tproxy', 'bind': f'127.0.0.1:{free_port()}', 'protocol': 'udp', 'maxUdpSocket': int(val.split(':')[1])}]
+        if val == 'SELF-LOOP':
+            val = [{'name': 'direct'}, {'name': 'selfc', 'type': 'http', 'server': '127.0.0.1', 'port': hp}]
         if val == 'LOGDIR':
             val = {'path': 'logs/access.log', 'format': 'json'}
         setp(cfg, path, val)
@@ -226,6 +235,7 @@ def one(m):
             if rc2 is not None and rc2 not in (0, 1):
                 return dict(res, verdict=('config.startup', 'accepted-by-test-then-crash-at-startup', f'{name}: `--test` says ok, start-up ends with {rc2}: {px.log()[-300:]}'))
             return dict(res, outcome=f'accepted-then-clean-startup-error:{rc2}')
+        fds_before = nfds(px)
         outs = probe(px, hp, sp)
         # name every connector in a rule POST, then another request
         if isinstance(cfg.get('connectors'), list):
@@ -250,6 +260,17 @@ def one(m):
                     outs.append('http:error-while-logging')
                     break
         time.sleep(1.3)  # one GC / log pass
+        if px.alive() and fds_before is not None:
+            # all clients are gone: whatever the traffic set in motion has to come to an end
+            quiet = None
+            for _ in range(320):
+                n = nfds(px)
+                if n is None or n <= fds_before + 12:
+                    quiet = n
+                    break
+                time.sleep(0.25)
+            if quiet is None and px.alive():
+                return dict(res, verdict=('config.traffic', 'accepted-then-never-comes-to-rest', f'{name}: accepted; 80 s after the last client had gone the process holds {nfds(px)} descriptors ({fds_before} before the traffic): what the requests set in motion does not end: {px.log()[-200:]}'))
         if not px.alive():
             return dict(res, verdict=('config.traffic', 'accepted-then-dies-under-traffic', f'{name}: accepted, then the process ended with {px.returncode()} after {outs}: {px.log()[-400:]}'))
         return dict(res, outcome='accepted-and-alive:' + ','.join(o.split(':')[0] + ':' + o.split(':')[-1] for o in outs[:2]))
